@@ -75,7 +75,9 @@ def main():
         subprocess.run(["python3", os.path.join(common.VERIF, "gen", "gen_fun.py"), str(chk.seed), str(n_gen), gdir], check=True)
         files += sorted(os.path.join(gdir, f) for f in os.listdir(gdir) if f.endswith(".sc"))
         if chk.tier == "quick":
-            files = files[:: max(1, len(files) // 90)]
+            must = [f for f in files if "/corpus/check/" in f or "/corpus/regress/" in f]  # name-collision / prefix shapes: never sampled away
+            rest = [f for f in files if f not in set(must)]
+            files = must + rest[:: max(1, len(rest) // 60)]
         K = 6 if chk.tier == "quick" else 12
         envs = [{}, {"LANG": "C"}, {"LANG": "de_DE.UTF-8", "TERM": "dumb"}, {"RUST_BACKTRACE": "1"}, {"HOME": "/nonexistent"}, {"TZ": "Asia/Tokyo"}]
         runs = []
